@@ -23,6 +23,7 @@ theorem str_lit (x : String) : str x = x.toList := rfl
 theorem read_env_pass_spec (sys : Sys) :
     (commands.read_env_pass sys).1 = sys ∧ pwOf (commands.read_env_pass sys).2 = (askPass sys.world true).toOption := by
   unfold commands.read_env_pass env_var askPass
+  unfold_generated_consts
   rw [str_lit]
   cases h : sys.world.getenv "KESTREL_PASSWORD".toList with
   | none => exact ⟨rfl, rfl⟩
@@ -32,6 +33,7 @@ theorem read_env_new_pass_spec (sys : Sys) :
     (commands.read_env_new_pass sys).1 = sys ∧
     pwOf (commands.read_env_new_pass sys).2 = (askPass sys.world true "KESTREL_NEW_PASSWORD").toOption := by
   unfold commands.read_env_new_pass env_var askPass
+  unfold_generated_consts
   rw [str_lit]
   cases h : sys.world.getenv "KESTREL_NEW_PASSWORD".toList with
   | none => exact ⟨rfl, rfl⟩
@@ -227,6 +229,7 @@ local macro "open_keyring_tail" p:ident : tactic => `(tactic| (
 theorem open_keyring_spec (sys : Sys) (loc : Option Str) :
     (commands.open_keyring sys loc).1 = sys ∧ keysOf (commands.open_keyring sys loc).2 = (openKeyring sys.world loc).toOption := by
   unfold commands.open_keyring openKeyring env_var
+  unfold_generated_consts
   rw [str_lit]
   rcases loc with _ | p
   · cases hg : sys.world.getenv "KESTREL_KEYRING".toList with
